@@ -1166,7 +1166,7 @@ func init() {
 	registry["C01"].Meta.Rules["C01.18"] = registry["C03"].Meta.Rules["C03.15"] + " (shared with C03.15: the dataset whose one-character name is overwritten is no longer found at its path)"
 	registry["C01"].Rules = append(registry["C01"].Rules, func(c *Ctx, r *Result) { backwardScanRule(c, r, "C01.18", nil, 3) })
 	registry["C05"].Meta.Rules["C05.18"] = registry["C03"].Meta.Rules["C03.19"] + " (shared with C03.19)"
-	registry["C05"].Rules = append(registry["C05"].Rules, func(c *Ctx, r *Result) { lengthPrefixRule(c, r, "C05.18", nil, 2) })
+	registry["C05"].Rules = append(registry["C05"].Rules, func(c *Ctx, r *Result) { lengthPrefixRule(c, r, "C05.18", nil, 1) })
 }
 
 func init() {
